@@ -274,6 +274,107 @@ def c11(ctx):
                   extra_cov={"families_in_table": nf})
 
 
+# --------------------------------------------------------------------------- C08
+def related_texts(ctx, roles, rng, x, quick):
+    """texts to confront id x with: its table/natural family members with and without '+', itself, two unrelated ids"""
+    t = ctx.tables
+    base = x
+    for sfx in ("-or-later", "-only"):
+        if base.endswith(sfx):
+            base = base[: -len(sfx)]
+    fam = set()
+    for f in t["ranges"]:
+        ids = [y for st in f for y in st]
+        if base in ids or x in ids:
+            fam.update(y for y in ids if not y.endswith("-or-later"))
+    for v in ctx.natfams.values():
+        if x in v or base in v:
+            fam.update(v)
+    fam = sorted(fam)
+    if quick and len(fam) > 5:
+        fam = rng.sample(fam, 5)
+    out = [x]
+    for y in fam:
+        out.append(y)
+        out.append(y + "+")
+    out += rng.sample(roles.unranged, 2)
+    seen, res = set(), []
+    for y in out:
+        if y not in seen:
+            seen.add(y)
+            res.append(y)
+    return res
+
+
+def c08(ctx):
+    rng = random.Random(ctx.seed)
+    roles = Roles(ctx, rng)
+    ctx.natfams = natural_families(ctx)
+    t = ctx.tables
+    quick = ctx.tier != "thorough"
+    ids = [x for x in t["active"] + t["deprecated"] if not x.endswith("+")]
+    if quick:
+        # every id that is in some table or natural family + a seeded sample of the rest
+        infam = {y for f in t["ranges"] for st in f for y in st} | {y for v in ctx.natfams.values() for y in v}
+        rest = [x for x in ids if x not in infam]
+        ids = [x for x in ids if x in infam][:: 2 if ctx.seed % 2 else 1][:140] + rng.sample(rest, 40)
+        # always keep the -only/-or-later twins' bases of the GNU families
+        ids += [x for x in t["deprecated"] if not x.endswith("+") and x not in ids]
+    rel = [related_texts(ctx, roles, rng, x, quick) for x in ids]
+    e1, e2 = rng.sample(t["exceptions"], 2)
+    ctx.write_params("MC_Spell_P", {"Ids": tla_seq(ids), "Related": "<<" + ", ".join(tla_seq(r) for r in rel) + ">>",
+                                    "Exc1": Q(e1), "Exc2": Q(e2), "Plain": Q(rng.choice(roles.unranged))})
+    ctx.notes.append("spell: %d ids, %d (id, related) states" % (len(ids), sum(len(r) for r in rel)))
+    r = ctx.run_tlc("spell", "MC_Spell", "MC_Spell", timeout=3000, extra=["-continue"])
+    import re as _re
+    viol = sorted(set(_re.findall(r"Invariant (\w+) is violated", r["log"])))
+    if viol:
+        ctx.notes.append("model-level invariants violated on the shipped tables: %s" % viol)
+    ctx.drive("trace", "spell", 1200 if not quick else 300)
+    ctx.validate_trace("trace")
+    rel_whats = {"not-interchangeable", "validity", "verdict"}
+    if viol and not [m for m in ctx.mismatches if m["what"] in rel_whats]:
+        raise Infra("model-level invariants %s failed but no disagreement was reproduced on the real code" % viol)
+    return finish(ctx, relevant=rel_whats,
+                  rule="listed ids x {X ~ X-only, X+ ~ X-or-later} x contexts (expression side / allowed side against family members with and "
+                       "without '+', none/same/other exception, six syntactic contexts); TLC: the model predicts identical results for both "
+                       "spellings; real code: both calls of every context must agree with each other and with the model; non-trivial = satisfied")
+
+
+# --------------------------------------------------------------------------- C09
+def c09(ctx):
+    rng = random.Random(ctx.seed)
+    roles = Roles(ctx, rng)
+    t = ctx.tables
+    quick = ctx.tier != "thorough"
+    lic = [x for x in t["active"] + t["deprecated"] if not x.endswith("+")]
+    exc = list(t["exceptions"])
+    if quick:
+        lic = rng.sample(lic, 220)
+        exc = rng.sample(exc, 30)
+    p1, p2 = rng.sample(roles.unranged, 2)
+    ctx.write_params("MC_Case_P", {"LicIds": tla_seq(lic), "ExcIds": tla_seq(exc), "MixK": str(ctx.seed % 2), "P1": Q(p1), "P2": Q(p2)})
+    extra_inv = ""
+    ctx.write_cfg("MC_Case", invariants=["CaseInv", "Emit"])
+    # FoldUnique is an assumption about the whole shipped lists: check it as an invariant of the initial state
+    with open(os.path.join(ctx.spec, "MC_Case.cfg"), "a") as f:
+        f.write("INVARIANT FoldUnique\n")
+    r = ctx.run_tlc("case", "MC_Case", "MC_Case", timeout=3000, extra=["-continue"])
+    import re as _re
+    viol = sorted(set(_re.findall(r"Invariant (\w+) is violated", r["log"])))
+    ctx.drive("trace", "case", 1200 if not quick else 300)
+    ctx.validate_trace("trace")
+    rel = {"not-interchangeable", "validity", "verdict", "extract", "extract-error", "extract-invented", "extract-missing", "extract-duplicate", "extract-roundtrip"}
+    if viol:
+        ctx.notes.append("model-level invariants violated on the shipped tables: %s" % viol)
+        if not [m for m in ctx.mismatches if m["what"] in rel]:
+            raise Infra("model-level invariants %s failed but no disagreement was reproduced on the real code" % viol)
+    return finish(ctx, relevant=rel,
+                  rule="listed license and exception ids x {lower, upper, alternating} case x {alone, in a 3-term expression, as allowed entry, "
+                       "after WITH}; TLC: the scanner model yields the same token for every variant, lists are fold-unique; real code: validity, "
+                       "verdict equal to the list spelling's, ExtractLicenses reports list casing; non-trivial = satisfied")
+
+
 # --------------------------------------------------------------------------- C05
 def c05(ctx):
     rng = random.Random(ctx.seed)
@@ -296,7 +397,7 @@ def c05(ctx):
                        "non-trivial = accepted by the grammar")
 
 
-CHECKS = {"C01": c01, "C02": c02, "C05": c05, "C06": c06, "C11": c11}
+CHECKS = {"C01": c01, "C02": c02, "C05": c05, "C06": c06, "C08": c08, "C09": c09, "C11": c11}
 
 MC = "model_checking"
 INFO = {
